@@ -21,6 +21,10 @@ class Check(PropertyCheck):
     ASSUMPTIONS = ["instances are valid", "monotonicity under filters is claimed for positive durations only (as in the property)"]
     QUICK_N = 300
 
+    def make_impl(self, scenario):
+        from impl_ext import ImplRules
+        return ImplRules(scenario.meta.get("filter_style", "callable"))
+
     def generate(self, rng, n, tier):
         for _ in range(n):
             yield self.scenario(rng, tier)
@@ -55,8 +59,12 @@ class Check(PropertyCheck):
                 offs = [sum(len(job) for job in jobs[:k]) for k in range(len(jobs))]
                 ready = [offs[jj] + pp for jj, pp in tr.ready()]
                 sub = rng.sample(ready, rng.randint(1, len(ready)))
+                tb = "tb:" + ",".join(rng.choice(["spt", "fcfs", "mor"]) for _ in range(rng.randint(1, 3)))
                 lines.append(rng.choice([f"q min_start {' '.join(map(str, sub))}", f"q earliest_start {sub[0]}",
-                                         "flt dom ; " + " ".join(map(str, sub)), "flt nio ; " + " ".join(map(str, sub))]))
+                                         "flt dom ; " + " ".join(map(str, sub)), "flt nio ; " + " ".join(map(str, sub)),
+                                         # a dispatching rule is asked for its choice (and nothing is dispatched on it)
+                                         f"rule {tb} {rng.randint(0, 9)}", f"rule {tb} {rng.randint(0, 9)}",
+                                         "rule " + rng.choice(["spt", "fcfs", "mwkr", "mor", "sb:spt", "sb:mor"]) + " 0"]))
             lines += ["q current_time", "q completed"]
         lines += ["q is_complete", "q makespan"]
         if rng.random() < 0.35:
